@@ -21,12 +21,24 @@ inductive HexFrag : Re → Prop
   | maskedNot (v m) : HexFrag (.maskedNot v m)
   | any : HexFrag .any
   | jump (lo hi : Nat) (g : Bool) : lo ≤ hi → hi < 65536 → HexFrag (.rangeAny lo hi g)
+  | wordCh : HexFrag .wordCh
+  | nonWordCh : HexFrag .nonWordCh
+  | space : HexFrag .space
+  | nonSpace : HexFrag .nonSpace
+  | digit : HexFrag .digit
+  | nonDigit : HexFrag .nonDigit
+  | bol : HexFrag .bol
+  | eol : HexFrag .eol
+  | wordB : HexFrag .wordB
+  | nonWordB : HexFrag .nonWordB
   | cat {a b} : HexFrag a → HexFrag b → HexFrag (.cat a b)
   | alt {a b} : HexFrag a → HexFrag b → HexFrag (.alt a b)
 
 /-- length of the emitted code -/
 def clen : Re → Nat
   | .lit _ => 2 | .notLit _ => 2 | .masked _ _ => 3 | .maskedNot _ _ => 3 | .any => 1 | .rangeAny _ _ _ => 5
+  | .wordCh => 1 | .nonWordCh => 1 | .space => 1 | .nonSpace => 1 | .digit => 1 | .nonDigit => 1
+  | .bol => 1 | .eol => 1 | .wordB => 1 | .nonWordB => 1
   | .cat a b => clen a + clen b
   | .alt a b => 4 + clen a + 3 + clen b
   | _ => 0
@@ -42,19 +54,29 @@ inductive Seg (code : Code) : Re → Nat → Nat → Prop
   | any {a : Nat} : u8 code a = OP_ANY → Seg code .any a (a + 1)
   | jump {a lo hi : Nat} {g : Bool} : (u8 code a = OP_REPEAT_ANY_GREEDY ∨ u8 code a = OP_REPEAT_ANY_UNGREEDY) →
       u16 code (a + 1) = lo → u16 code (a + 3) = hi → lo ≤ hi → Seg code (.rangeAny lo hi g) a (a + 5)
+  | wordCh {a : Nat} : u8 code a = OP_WORD_CHAR → Seg code .wordCh a (a + 1)
+  | nonWordCh {a : Nat} : u8 code a = OP_NON_WORD_CHAR → Seg code .nonWordCh a (a + 1)
+  | space {a : Nat} : u8 code a = OP_SPACE → Seg code .space a (a + 1)
+  | nonSpace {a : Nat} : u8 code a = OP_NON_SPACE → Seg code .nonSpace a (a + 1)
+  | digit {a : Nat} : u8 code a = OP_DIGIT → Seg code .digit a (a + 1)
+  | nonDigit {a : Nat} : u8 code a = OP_NON_DIGIT → Seg code .nonDigit a (a + 1)
+  | bol {a : Nat} : u8 code a = OP_MATCH_AT_START → Seg code .bol a (a + 1)
+  | eol {a : Nat} : u8 code a = OP_MATCH_AT_END → Seg code .eol a (a + 1)
+  | wordB {a : Nat} : u8 code a = OP_WORD_BOUNDARY → Seg code .wordB a (a + 1)
+  | nonWordB {a : Nat} : u8 code a = OP_NON_WORD_BOUNDARY → Seg code .nonWordB a (a + 1)
   | cat {x y : Re} {a m b : Nat} : Seg code x a m → Seg code y m b → Seg code (.cat x y) a b
   | alt {x y : Re} {a m b : Nat} : u8 code a = OP_SPLIT_A → addOff a (i16 code (a + 2)) = m + 3 → Seg code x (a + 4) m →
       u8 code m = OP_JUMP → addOff m (i16 code (m + 1)) = b → Seg code y (m + 3) b → Seg code (.alt x y) a b
 
 theorem Seg.len {code : Code} {r : Re} {a b : Nat} (h : Seg code r a b) : b = a + clen r := by
   induction h with
-  | lit _ _ | notLit _ _ | masked _ _ _ | maskedNot _ _ _ | any _ | jump _ _ _ _ => simp [clen]
+  | lit _ _ | notLit _ _ | masked _ _ _ | maskedNot _ _ _ | any _ | jump _ _ _ _ | wordCh _ | nonWordCh _ | space _ | nonSpace _ | digit _ | nonDigit _ | bol _ | eol _ | wordB _ | nonWordB _ => simp [clen]
   | cat _ _ ih1 ih2 => simp only [clen]; omega
   | alt _ _ _ _ _ _ ih1 ih2 => simp only [clen]; omega
 
 theorem Seg.pos {code : Code} {r : Re} {a b : Nat} (h : Seg code r a b) : a < b := by
   induction h with
-  | lit _ _ | notLit _ _ | masked _ _ _ | maskedNot _ _ _ | any _ | jump _ _ _ _ => omega
+  | lit _ _ | notLit _ _ | masked _ _ _ | maskedNot _ _ _ | any _ | jump _ _ _ _ | wordCh _ | nonWordCh _ | space _ | nonSpace _ | digit _ | nonDigit _ | bol _ | eol _ | wordB _ | nonWordB _ => omega
   | cat _ _ ih1 ih2 => omega
   | alt _ _ _ _ _ _ ih1 ih2 => omega
 
@@ -91,7 +113,7 @@ variable (fl : Flags) (buf : Bytes)
 theorem lang_entry {code : Code} {r : Re} {a b : Nat} (hs : Seg code r a b) (K : Lang) (q q' : Nat) :
     lang fl buf r a K a (-1) .run q q' → ∃ t, Re.Matches fl buf r q t ∧ K t q' := by
   induction hs generalizing K q q' with
-  | lit _ _ | notLit _ _ | masked _ _ _ | maskedNot _ _ _ | any _ => simp [lang]
+  | lit _ _ | notLit _ _ | masked _ _ _ | maskedNot _ _ _ | any _ | wordCh _ | nonWordCh _ | space _ | nonSpace _ | digit _ | nonDigit _ | bol _ | eol _ | wordB _ | nonWordB _ => simp [lang]
   | @jump a lo hi g _ _ _ _ =>
     intro h
     simp only [lang, if_true] at h
@@ -122,7 +144,7 @@ theorem lang_entry {code : Code} {r : Re} {a b : Nat} (hs : Seg code r a b) (K :
 theorem lang_end {code : Code} {r : Re} {a b : Nat} (hs : Seg code r a b) (K : Lang) (rc : Int) (md : Mode) :
     lang fl buf r a K b rc md = K := by
   induction hs generalizing K with
-  | lit _ _ | notLit _ _ | masked _ _ _ | maskedNot _ _ _ | any _ | jump _ _ _ _ => simp [lang]
+  | lit _ _ | notLit _ _ | masked _ _ _ | maskedNot _ _ _ | any _ | jump _ _ _ _ | wordCh _ | nonWordCh _ | space _ | nonSpace _ | digit _ | nonDigit _ | bol _ | eol _ | wordB _ | nonWordB _ => simp [lang]
   | @cat x y a m b h1 h2 ih1 ih2 =>
     have hm : m = a + clen x := h1.len
     have : ¬ b < a + clen x := by have := h2.pos; omega
@@ -190,7 +212,7 @@ def Valid : Re → Nat → Nat → Int → Mode → Prop
 theorem valid_range {code : Code} {r : Re} {a b : Nat} (hs : Seg code r a b) {ip : Nat} {rc : Int} {m : Mode}
     (h : Valid r a ip rc m) : a ≤ ip ∧ ip < b := by
   induction hs generalizing ip with
-  | lit _ _ | notLit _ _ | masked _ _ _ | maskedNot _ _ _ | any _ | jump _ _ _ _ => simp only [Valid] at h; omega
+  | lit _ _ | notLit _ _ | masked _ _ _ | maskedNot _ _ _ | any _ | jump _ _ _ _ | wordCh _ | nonWordCh _ | space _ | nonSpace _ | digit _ | nonDigit _ | bol _ | eol _ | wordB _ | nonWordB _ => simp only [Valid] at h; omega
   | @cat x y a m b h1 h2 ih1 ih2 =>
     have hm : m = a + clen x := h1.len
     have p1 := h1.pos; have p2 := h2.pos
@@ -211,7 +233,7 @@ theorem valid_range {code : Code} {r : Re} {a b : Nat} (hs : Seg code r a b) {ip
 
 theorem valid_first {code : Code} {r : Re} {a b : Nat} (hs : Seg code r a b) : Valid r a a (-1) .run := by
   induction hs with
-  | lit _ _ | notLit _ _ | masked _ _ _ | maskedNot _ _ _ | any _ => simp [Valid]
+  | lit _ _ | notLit _ _ | masked _ _ _ | maskedNot _ _ _ | any _ | wordCh _ | nonWordCh _ | space _ | nonSpace _ | digit _ | nonDigit _ | bol _ | eol _ | wordB _ | nonWordB _ => simp [Valid]
   | jump _ _ _ _ => simp [Valid]
   | cat _ _ ih1 _ => exact .inl ih1
   | alt _ _ _ _ _ _ _ _ => exact .inl ⟨rfl, rfl, rfl⟩
@@ -362,6 +384,151 @@ theorem consume_any {e : Env} (h : FwdByte e) {bm : Nat} {f : Fiber} (hop : u8 e
   rwa [specFlags_cs] at this
 
 
+theorem consume_wordCh {e : Env} (h : FwdByte e) {bm : Nat} {f : Fiber} (hop : u8 e.code f.ip = OP_WORD_CHAR) (hc : consumeOk e bm f = true) :
+    Re.Matches (specFlags e.fl) e.buf .wordCh (e.start + bm) (e.start + bm + 1) := by
+  have hq := consume_in_buf h hc
+  have ht := consumeTest_of h hc
+  have : Re.Matches (specFlags e.fl) e.buf .wordCh (e.start + bm) (e.start + bm + (specFlags e.fl).cs) := by
+    apply Re.Matches.wordCh
+    apply charOk_of rfl hq
+    unfold consumeTest at ht
+    simp only [hop, OP_ANY, OP_REPEAT_ANY_GREEDY, OP_REPEAT_ANY_UNGREEDY, OP_LITERAL, OP_NOT_LITERAL, OP_MASKED_LITERAL, OP_MASKED_NOT_LITERAL, OP_CLASS, OP_WORD_CHAR, OP_NON_WORD_CHAR, OP_SPACE, OP_NON_SPACE, OP_DIGIT, OP_NON_DIGIT] at ht
+    simp only [Nat.reduceEqDiff, or_self, if_false, if_true] at ht
+    simpa [isWordCharAt] using ht
+  rwa [specFlags_cs] at this
+
+theorem consume_nonWordCh {e : Env} (h : FwdByte e) {bm : Nat} {f : Fiber} (hop : u8 e.code f.ip = OP_NON_WORD_CHAR) (hc : consumeOk e bm f = true) :
+    Re.Matches (specFlags e.fl) e.buf .nonWordCh (e.start + bm) (e.start + bm + 1) := by
+  have hq := consume_in_buf h hc
+  have ht := consumeTest_of h hc
+  have : Re.Matches (specFlags e.fl) e.buf .nonWordCh (e.start + bm) (e.start + bm + (specFlags e.fl).cs) := by
+    apply Re.Matches.nonWordCh
+    apply charOk_of rfl hq
+    unfold consumeTest at ht
+    simp only [hop, OP_ANY, OP_REPEAT_ANY_GREEDY, OP_REPEAT_ANY_UNGREEDY, OP_LITERAL, OP_NOT_LITERAL, OP_MASKED_LITERAL, OP_MASKED_NOT_LITERAL, OP_CLASS, OP_WORD_CHAR, OP_NON_WORD_CHAR, OP_SPACE, OP_NON_SPACE, OP_DIGIT, OP_NON_DIGIT] at ht
+    simp only [Nat.reduceEqDiff, or_self, if_false, if_true] at ht
+    simpa [isWordCharAt] using ht
+  rwa [specFlags_cs] at this
+
+theorem consume_space {e : Env} (h : FwdByte e) {bm : Nat} {f : Fiber} (hop : u8 e.code f.ip = OP_SPACE) (hc : consumeOk e bm f = true) :
+    Re.Matches (specFlags e.fl) e.buf .space (e.start + bm) (e.start + bm + 1) := by
+  have hq := consume_in_buf h hc
+  have ht := consumeTest_of h hc
+  have : Re.Matches (specFlags e.fl) e.buf .space (e.start + bm) (e.start + bm + (specFlags e.fl).cs) := by
+    apply Re.Matches.space
+    apply charOk_of rfl hq
+    unfold consumeTest at ht
+    simp only [hop, OP_ANY, OP_REPEAT_ANY_GREEDY, OP_REPEAT_ANY_UNGREEDY, OP_LITERAL, OP_NOT_LITERAL, OP_MASKED_LITERAL, OP_MASKED_NOT_LITERAL, OP_CLASS, OP_WORD_CHAR, OP_NON_WORD_CHAR, OP_SPACE, OP_NON_SPACE, OP_DIGIT, OP_NON_DIGIT] at ht
+    simp only [Nat.reduceEqDiff, or_self, if_false, if_true] at ht
+    simpa [isWordCharAt] using ht
+  rwa [specFlags_cs] at this
+
+theorem consume_nonSpace {e : Env} (h : FwdByte e) {bm : Nat} {f : Fiber} (hop : u8 e.code f.ip = OP_NON_SPACE) (hc : consumeOk e bm f = true) :
+    Re.Matches (specFlags e.fl) e.buf .nonSpace (e.start + bm) (e.start + bm + 1) := by
+  have hq := consume_in_buf h hc
+  have ht := consumeTest_of h hc
+  have : Re.Matches (specFlags e.fl) e.buf .nonSpace (e.start + bm) (e.start + bm + (specFlags e.fl).cs) := by
+    apply Re.Matches.nonSpace
+    apply charOk_of rfl hq
+    unfold consumeTest at ht
+    simp only [hop, OP_ANY, OP_REPEAT_ANY_GREEDY, OP_REPEAT_ANY_UNGREEDY, OP_LITERAL, OP_NOT_LITERAL, OP_MASKED_LITERAL, OP_MASKED_NOT_LITERAL, OP_CLASS, OP_WORD_CHAR, OP_NON_WORD_CHAR, OP_SPACE, OP_NON_SPACE, OP_DIGIT, OP_NON_DIGIT] at ht
+    simp only [Nat.reduceEqDiff, or_self, if_false, if_true] at ht
+    simpa [isWordCharAt] using ht
+  rwa [specFlags_cs] at this
+
+theorem consume_digit {e : Env} (h : FwdByte e) {bm : Nat} {f : Fiber} (hop : u8 e.code f.ip = OP_DIGIT) (hc : consumeOk e bm f = true) :
+    Re.Matches (specFlags e.fl) e.buf .digit (e.start + bm) (e.start + bm + 1) := by
+  have hq := consume_in_buf h hc
+  have ht := consumeTest_of h hc
+  have : Re.Matches (specFlags e.fl) e.buf .digit (e.start + bm) (e.start + bm + (specFlags e.fl).cs) := by
+    apply Re.Matches.digit
+    apply charOk_of rfl hq
+    unfold consumeTest at ht
+    simp only [hop, OP_ANY, OP_REPEAT_ANY_GREEDY, OP_REPEAT_ANY_UNGREEDY, OP_LITERAL, OP_NOT_LITERAL, OP_MASKED_LITERAL, OP_MASKED_NOT_LITERAL, OP_CLASS, OP_WORD_CHAR, OP_NON_WORD_CHAR, OP_SPACE, OP_NON_SPACE, OP_DIGIT, OP_NON_DIGIT] at ht
+    simp only [Nat.reduceEqDiff, or_self, if_false, if_true] at ht
+    simpa [isWordCharAt] using ht
+  rwa [specFlags_cs] at this
+
+theorem consume_nonDigit {e : Env} (h : FwdByte e) {bm : Nat} {f : Fiber} (hop : u8 e.code f.ip = OP_NON_DIGIT) (hc : consumeOk e bm f = true) :
+    Re.Matches (specFlags e.fl) e.buf .nonDigit (e.start + bm) (e.start + bm + 1) := by
+  have hq := consume_in_buf h hc
+  have ht := consumeTest_of h hc
+  have : Re.Matches (specFlags e.fl) e.buf .nonDigit (e.start + bm) (e.start + bm + (specFlags e.fl).cs) := by
+    apply Re.Matches.nonDigit
+    apply charOk_of rfl hq
+    unfold consumeTest at ht
+    simp only [hop, OP_ANY, OP_REPEAT_ANY_GREEDY, OP_REPEAT_ANY_UNGREEDY, OP_LITERAL, OP_NOT_LITERAL, OP_MASKED_LITERAL, OP_MASKED_NOT_LITERAL, OP_CLASS, OP_WORD_CHAR, OP_NON_WORD_CHAR, OP_SPACE, OP_NON_SPACE, OP_DIGIT, OP_NON_DIGIT] at ht
+    simp only [Nat.reduceEqDiff, or_self, if_false, if_true] at ht
+    simpa [isWordCharAt] using ht
+  rwa [specFlags_cs] at this
+
+/-! ### zero-width instructions against the specification (forwards, byte mode) -/
+theorem charOk_narrow {fl : Flags} (hw : fl.wide = false) (buf : Bytes) (t : UInt8 → Bool) (p : Nat) :
+    charOk fl buf t p = (decide (p < buf.size) && t (byteAt buf (p : Int))) := by
+  by_cases hp : p < buf.size
+  · unfold charOk
+    rw [byteAt_eq hp]
+    simp [hw, hp]
+  · unfold charOk
+    have : buf[p]? = none := Array.getElem?_eq_none (by omega)
+    rw [this]
+    simp [hp]
+
+theorem zw_bol {e : Env} (h : FwdByte e) {bm : Nat} (hz : zeroWidthOk e bm OP_MATCH_AT_START = true) : e.start + bm = 0 := by
+  unfold zeroWidthOk at hz
+  simp [OP_MATCH_AT_START, OP_WORD_BOUNDARY, OP_NON_WORD_BOUNDARY, h.notBack, Env.bwdSize] at hz
+  omega
+
+theorem zw_eol {e : Env} (h : FwdByte e) {bm : Nat} (hb : e.start + bm ≤ e.buf.size) (hz : zeroWidthOk e bm OP_MATCH_AT_END = true) :
+    e.start + bm = e.buf.size := by
+  unfold zeroWidthOk at hz
+  simp [OP_MATCH_AT_END, OP_MATCH_AT_START, OP_WORD_BOUNDARY, OP_NON_WORD_BOUNDARY, h.notBack, Env.fwdSize] at hz
+  omega
+
+theorem zw_boundary {e : Env} (h : FwdByte e) {bm : Nat} (hbb : e.start + bm ≤ e.buf.size) :
+    zeroWidthOk e bm OP_WORD_BOUNDARY = isBoundary (specFlags e.fl) e.buf (e.start + bm) := by
+  have hcs : e.cs = 1 := cs_one h
+  have hinp : e.inp bm = ((e.start + bm : Nat) : Int) := inp_fwd h bm
+  have hb := h.notBack
+  unfold zeroWidthOk isBoundary wordBefore wordAt
+  simp only [OP_WORD_BOUNDARY, OP_NON_WORD_BOUNDARY, Nat.reduceEqDiff, true_or, if_true, if_false, hb, Bool.false_eq_true]
+  rw [charOk_narrow rfl, charOk_narrow rfl, hinp, hcs]
+  have hsf : (specFlags e.fl).cs = 1 := rfl
+  rw [hsf]
+  unfold isWordCharAt
+  generalize hq : e.start + bm = q at hbb
+  by_cases h0 : q = 0
+  · subst h0
+    have c1 : decide (((0:Nat):Int) - ((1:Nat):Int) ≥ 0) = false := by simp
+    have c4 : decide (1 ≤ 0) = false := by simp
+    rw [c1, c4]
+    simp
+    congr 1
+    apply decide_eq_decide.2
+    omega
+  · have h1 : 1 ≤ q := by omega
+    have e1 : ((q : Int) - ((1:Nat):Int)) = ((q - 1 : Nat) : Int) := by omega
+    simp only [e1]
+    have c1 : decide ((((q - 1 : Nat) : Int)) + ((1:Nat):Int) ≤ (e.buf.size : Int)) = true := by simp; omega
+    have c2 : decide ((((q - 1 : Nat) : Int)) ≥ 0) = true := by simp
+    have c3 : decide (q - 1 < e.buf.size) = true := by simp; omega
+    have c4 : decide (1 ≤ q) = true := by simp; omega
+    rw [c1, c2, c3, c4]
+    by_cases h2 : q < e.buf.size
+    · have d1 : decide ((q : Int) + ((1:Nat):Int) ≤ (e.buf.size : Int)) = true := by simp; omega
+      have d2 : decide ((q : Int) ≥ 0) = true := by simp
+      have d3 : decide (q < e.buf.size) = true := by simp; omega
+      rw [d1, d2, d3]
+      simp
+    · have d1 : decide ((q : Int) + ((1:Nat):Int) ≤ (e.buf.size : Int)) = false := by simp; omega
+      have d3 : decide (q < e.buf.size) = false := by simp; omega
+      rw [d1, d3]
+      simp
+
+theorem zw_nonboundary (e : Env) (bm : Nat) : zeroWidthOk e bm OP_NON_WORD_BOUNDARY = !zeroWidthOk e bm OP_WORD_BOUNDARY := by
+  unfold zeroWidthOk
+  simp [OP_WORD_BOUNDARY, OP_NON_WORD_BOUNDARY]
+
 /-! ### one machine step inside a segment keeps the continuation invariant -/
 def modeAfter (stop : Bool) : Mode := if stop then .wait else .run
 def modeCons (code : Code) (f : Fiber) : Mode :=
@@ -377,7 +544,7 @@ def StepOK (e : Env) (r : Re) (a b : Nat) (K : Lang) (f : Fiber) (m : Mode) : Pr
       ∀ q', lang (specFlags e.fl) e.buf r a K (advance e.code f).ip (advance e.code f).rc (modeCons e.code f) (e.start + bm + 1) q' →
         lang (specFlags e.fl) e.buf r a K f.ip f.rc m (e.start + bm) q') ∧
   (u8 e.code f.ip ≠ OP_MATCH) ∧
-  (∀ bm, isConsuming (u8 e.code f.ip) = false → zeroWidthOk e bm (u8 e.code f.ip) = true →
+  (∀ bm, e.start + bm ≤ e.buf.size → isConsuming (u8 e.code f.ip) = false → zeroWidthOk e bm (u8 e.code f.ip) = true →
       (Valid r a (f.ip + 1) f.rc .run ∨ AtEnd b { f with ip := f.ip + 1 } .run) ∧
       ∀ q', lang (specFlags e.fl) e.buf r a K (f.ip + 1) f.rc .run (e.start + bm) q' →
         lang (specFlags e.fl) e.buf r a K f.ip f.rc m (e.start + bm) q')
@@ -421,8 +588,39 @@ theorem leaf_step (e : Env) (r : Re) (a n : Nat) (K : Lang) (f : Fiber) (m : Mod
     rw [hip, hlang, if_pos rfl]
     exact ⟨_, hm bm hc, hq'⟩
   · rw [hopf]; exact hnm
-  · intro bm hnc
+  · intro bm _ hnc
     rw [hopf, hcons] at hnc; simp at hnc
+
+theorem zw_step (e : Env) (r : Re) (a : Nat) (K : Lang) (f : Fiber) (m : Mode) (op : Nat)
+    (hip : f.ip = a) (hrc : f.rc = -1) (hmode : m = .run) (hop : u8 e.code a = op)
+    (hncons : isConsuming op = false) (hnctl : ¬ isCtl op) (hnany : ¬ (op = OP_REPEAT_ANY_GREEDY ∨ op = OP_REPEAT_ANY_UNGREEDY))
+    (hnm : op ≠ OP_MATCH)
+    (hlang : ∀ ip rc md, lang (specFlags e.fl) e.buf r a K ip rc md =
+      if ip = a then (fun q q' => ∃ t, Re.Matches (specFlags e.fl) e.buf r q t ∧ K t q') else K)
+    (hm : ∀ bm, e.start + bm ≤ e.buf.size → zeroWidthOk e bm op = true →
+      Re.Matches (specFlags e.fl) e.buf r (e.start + bm) (e.start + bm)) :
+    StepOK e r a (a + 1) K f m := by
+  have hopf : u8 e.code f.ip = op := by rw [hip]; exact hop
+  refine ⟨?_, ?_, ?_, ?_, ?_⟩
+  · intro g hg
+    exfalso
+    apply hnctl
+    rw [← hopf]; exact estep_ctl hg
+  · intro g st hg
+    exfalso
+    exact no_astep hg (by rw [hopf]; exact hnany)
+  · intro bm hc
+    rw [hopf, hncons] at hc; simp at hc
+  · rw [hopf]; exact hnm
+  · intro bm hb _ hz
+    rw [hopf] at hz
+    refine ⟨.inr ⟨by simp [hip], hrc, rfl⟩, ?_⟩
+    intro q' hq'
+    rw [hip, hlang] at hq'
+    have hne : ¬ (a + 1 = a) := by omega
+    rw [if_neg hne] at hq'
+    rw [hip, hlang, if_pos rfl]
+    exact ⟨_, hm bm hb hz, hq'⟩
 
 /-- a spinning REPEAT_ANY accepts one character -/
 theorem consume_anyrep {e : Env} (h : FwdByte e) {bm : Nat} {f : Fiber}
@@ -526,7 +724,7 @@ theorem jump_step (e : Env) (h : FwdByte e) (a lo hi : Nat) (g : Bool) (K : Lang
       have hk1 : 1 ≤ rc0 f.rc := by have := rc0_pos hrc1.1; omega
       exact ⟨j + 1, t, by omega, by omega, by omega, .cons (consume_anyrep h hopf hc) hp, hk⟩
   · rcases hopf with h1 | h1 <;> rw [h1] <;> simp [OP_REPEAT_ANY_GREEDY, OP_REPEAT_ANY_UNGREEDY, OP_MATCH]
-  · intro bm hnc
+  · intro bm _ hnc
     exfalso
     rcases hopf with h1 | h1 <;> rw [h1] at hnc <;> simp [isConsuming, OP_REPEAT_ANY_GREEDY, OP_REPEAT_ANY_UNGREEDY, OP_ANY] at hnc
 
@@ -558,6 +756,58 @@ theorem seg_step (e : Env) (h : FwdByte e) {r : Re} {a b : Nat} (hs : Seg e.code
     simp only [Valid] at hst
     exact leaf_step e .any a 1 K f md OP_ANY hst.1 hst.2.1 hst.2.2 h1 (by decide) (by unfold isCtl; decide) (by decide) (by decide) (by decide) (by omega)
       (fun ip rc md => by simp [lang]) (fun bm hc => consume_any h (by rw [hst.1]; exact h1) hc)
+  | @wordCh a h1 =>
+    intro K f md hst
+    simp only [Valid] at hst
+    exact leaf_step e .wordCh a 1 K f md OP_WORD_CHAR hst.1 hst.2.1 hst.2.2 h1 (by decide) (by unfold isCtl; decide) (by decide) (by decide) (by decide) (by omega)
+      (fun ip rc md => by simp [lang]) (fun bm hc => consume_wordCh h (by rw [hst.1]; exact h1) hc)
+  | @nonWordCh a h1 =>
+    intro K f md hst
+    simp only [Valid] at hst
+    exact leaf_step e .nonWordCh a 1 K f md OP_NON_WORD_CHAR hst.1 hst.2.1 hst.2.2 h1 (by decide) (by unfold isCtl; decide) (by decide) (by decide) (by decide) (by omega)
+      (fun ip rc md => by simp [lang]) (fun bm hc => consume_nonWordCh h (by rw [hst.1]; exact h1) hc)
+  | @space a h1 =>
+    intro K f md hst
+    simp only [Valid] at hst
+    exact leaf_step e .space a 1 K f md OP_SPACE hst.1 hst.2.1 hst.2.2 h1 (by decide) (by unfold isCtl; decide) (by decide) (by decide) (by decide) (by omega)
+      (fun ip rc md => by simp [lang]) (fun bm hc => consume_space h (by rw [hst.1]; exact h1) hc)
+  | @nonSpace a h1 =>
+    intro K f md hst
+    simp only [Valid] at hst
+    exact leaf_step e .nonSpace a 1 K f md OP_NON_SPACE hst.1 hst.2.1 hst.2.2 h1 (by decide) (by unfold isCtl; decide) (by decide) (by decide) (by decide) (by omega)
+      (fun ip rc md => by simp [lang]) (fun bm hc => consume_nonSpace h (by rw [hst.1]; exact h1) hc)
+  | @digit a h1 =>
+    intro K f md hst
+    simp only [Valid] at hst
+    exact leaf_step e .digit a 1 K f md OP_DIGIT hst.1 hst.2.1 hst.2.2 h1 (by decide) (by unfold isCtl; decide) (by decide) (by decide) (by decide) (by omega)
+      (fun ip rc md => by simp [lang]) (fun bm hc => consume_digit h (by rw [hst.1]; exact h1) hc)
+  | @nonDigit a h1 =>
+    intro K f md hst
+    simp only [Valid] at hst
+    exact leaf_step e .nonDigit a 1 K f md OP_NON_DIGIT hst.1 hst.2.1 hst.2.2 h1 (by decide) (by unfold isCtl; decide) (by decide) (by decide) (by decide) (by omega)
+      (fun ip rc md => by simp [lang]) (fun bm hc => consume_nonDigit h (by rw [hst.1]; exact h1) hc)
+  | @bol a h1 =>
+    intro K f md hst
+    simp only [Valid] at hst
+    exact zw_step e .bol a K f md OP_MATCH_AT_START hst.1 hst.2.1 hst.2.2 h1 (by decide) (by unfold isCtl; decide) (by decide) (by decide)
+      (fun ip rc md => by simp [lang]) (fun bm _ hz => by rw [zw_bol h hz]; exact .bol)
+  | @eol a h1 =>
+    intro K f md hst
+    simp only [Valid] at hst
+    exact zw_step e .eol a K f md OP_MATCH_AT_END hst.1 hst.2.1 hst.2.2 h1 (by decide) (by unfold isCtl; decide) (by decide) (by decide)
+      (fun ip rc md => by simp [lang]) (fun bm hb hz => by rw [zw_eol h hb hz]; exact .eol)
+  | @wordB a h1 =>
+    intro K f md hst
+    simp only [Valid] at hst
+    exact zw_step e .wordB a K f md OP_WORD_BOUNDARY hst.1 hst.2.1 hst.2.2 h1 (by decide) (by unfold isCtl; decide) (by decide) (by decide)
+      (fun ip rc md => by simp [lang]) (fun bm hb hz => .wordB (by rw [← zw_boundary h hb]; exact hz))
+  | @nonWordB a h1 =>
+    intro K f md hst
+    simp only [Valid] at hst
+    exact zw_step e .nonWordB a K f md OP_NON_WORD_BOUNDARY hst.1 hst.2.1 hst.2.2 h1 (by decide) (by unfold isCtl; decide) (by decide) (by decide)
+      (fun ip rc md => by simp [lang]) (fun bm hb hz => .nonWordB (by
+        rw [zw_nonboundary, zw_boundary h hb] at hz
+        simpa using hz))
   | @jump a lo hi g h1 h2 h3 h4 =>
     intro K f md hst
     exact jump_step e h a lo hi g K f md h1 h2 h3 h4 hst
@@ -614,8 +864,8 @@ theorem seg_step (e : Env) (h : FwdByte e) {r : Re} {a b : Nat} (hs : Seg e.code
         refine ⟨l1, ?_⟩
         intro q' hq
         rw [hlx _ _ _ hlt]; rw [l2] at hq; exact g2 q' hq
-      · intro bm hz1 hz2
-        obtain ⟨g1, g2⟩ := e5 bm hz1 hz2
+      · intro bm hz0 hz1 hz2
+        obtain ⟨g1, g2⟩ := e5 bm hz0 hz1 hz2
         obtain ⟨l1, l2⟩ := liftx { f with ip := f.ip + 1 } .run g1
         refine ⟨l1, ?_⟩
         intro q' hq
@@ -641,8 +891,8 @@ theorem seg_step (e : Env) (h : FwdByte e) {r : Re} {a b : Nat} (hs : Seg e.code
         refine ⟨l1, ?_⟩
         intro q' hq
         rw [hly _ _ _ hge]; rw [l2] at hq; exact g2 q' hq
-      · intro bm hz1 hz2
-        obtain ⟨g1, g2⟩ := e5 bm hz1 hz2
+      · intro bm hz0 hz1 hz2
+        obtain ⟨g1, g2⟩ := e5 bm hz0 hz1 hz2
         obtain ⟨l1, l2⟩ := lifty { f with ip := f.ip + 1 } .run g1
         refine ⟨l1, ?_⟩
         intro q' hq
@@ -688,7 +938,7 @@ theorem seg_step (e : Env) (h : FwdByte e) {r : Re} {a b : Nat} (hs : Seg e.code
       have hop : u8 e.code f.ip = OP_SPLIT_A := by rw [hip]; exact o1
       have hnany : ¬ (u8 e.code f.ip = OP_REPEAT_ANY_GREEDY ∨ u8 e.code f.ip = OP_REPEAT_ANY_UNGREEDY) := by
         rw [hop]; simp [OP_SPLIT_A, OP_REPEAT_ANY_GREEDY, OP_REPEAT_ANY_UNGREEDY]
-      refine ⟨?_, ?_, ?_, by rw [hop]; decide, fun bm _ hz => by rw [hop, zw_split_false e bm (.inl rfl)] at hz; simp at hz⟩
+      refine ⟨?_, ?_, ?_, by rw [hop]; decide, fun bm _ _ hz => by rw [hop, zw_split_false e bm (.inl rfl)] at hz; simp at hz⟩
       · intro g hg _
         rcases estep_split hg (.inl hop) with rfl | rfl
         · obtain ⟨l1, l2⟩ := liftx { f with ip := f.ip + 4 } .run (.inl (by simp only; rw [hip, hrc]; exact valid_first s1))
@@ -733,8 +983,8 @@ theorem seg_step (e : Env) (h : FwdByte e) {r : Re} {a b : Nat} (hs : Seg e.code
         refine ⟨l1, ?_⟩
         intro q' hq
         rw [hlx _ _ _ (by omega) r.2]; rw [l2] at hq; exact g2 q' hq
-      · intro bm hz1 hz2
-        obtain ⟨g1, g2⟩ := e5 bm hz1 hz2
+      · intro bm hz0 hz1 hz2
+        obtain ⟨g1, g2⟩ := e5 bm hz0 hz1 hz2
         obtain ⟨l1, l2⟩ := liftx { f with ip := f.ip + 1 } .run g1
         refine ⟨l1, ?_⟩
         intro q' hq
@@ -744,7 +994,7 @@ theorem seg_step (e : Env) (h : FwdByte e) {r : Re} {a b : Nat} (hs : Seg e.code
       have hop : u8 e.code f.ip = OP_JUMP := by rw [hip]; exact o3
       have hnany : ¬ (u8 e.code f.ip = OP_REPEAT_ANY_GREEDY ∨ u8 e.code f.ip = OP_REPEAT_ANY_UNGREEDY) := by
         rw [hop]; simp [OP_JUMP, OP_REPEAT_ANY_GREEDY, OP_REPEAT_ANY_UNGREEDY]
-      refine ⟨?_, ?_, ?_, by rw [hop]; decide, fun bm _ hz => by rw [hop, zw_split_false e bm (.inr (.inr rfl))] at hz; simp at hz⟩
+      refine ⟨?_, ?_, ?_, by rw [hop]; decide, fun bm _ _ hz => by rw [hop, zw_split_false e bm (.inr (.inr rfl))] at hz; simp at hz⟩
       · intro g hg _
         rw [estep_jump hg hop]
         refine ⟨.inr ⟨by simp only; rw [hip, o4], hrc, rfl⟩, ?_⟩
@@ -779,8 +1029,8 @@ theorem seg_step (e : Env) (h : FwdByte e) {r : Re} {a b : Nat} (hs : Seg e.code
         refine ⟨l1, ?_⟩
         intro q' hq
         rw [hly _ _ _ (by omega)]; rw [l2] at hq; exact g2 q' hq
-      · intro bm hz1 hz2
-        obtain ⟨g1, g2⟩ := e5 bm hz1 hz2
+      · intro bm hz0 hz1 hz2
+        obtain ⟨g1, g2⟩ := e5 bm hz0 hz1 hz2
         obtain ⟨l1, l2⟩ := lifty { f with ip := f.ip + 1 } .run g1
         refine ⟨l1, ?_⟩
         intro q' hq
@@ -801,7 +1051,7 @@ theorem match_not_any {op : Nat} (h : op = OP_MATCH) : ¬ (op = OP_REPEAT_ANY_GR
 theorem valid_run {code : Code} {r : Re} {a b : Nat} (hs : Seg code r a b) {ip : Nat} {rc : Int} {m : Mode}
     (hv : Valid r a ip rc m) (hn : ¬ (u8 code ip = OP_REPEAT_ANY_GREEDY ∨ u8 code ip = OP_REPEAT_ANY_UNGREEDY)) : m = .run := by
   induction hs generalizing ip with
-  | lit _ _ | notLit _ _ | masked _ _ _ | maskedNot _ _ _ | any _ => simp only [Valid] at hv; exact hv.2.2
+  | lit _ _ | notLit _ _ | masked _ _ _ | maskedNot _ _ _ | any _ | wordCh _ | nonWordCh _ | space _ | nonSpace _ | digit _ | nonDigit _ | bol _ | eol _ | wordB _ | nonWordB _ => simp only [Valid] at hv; exact hv.2.2
   | jump h1 _ _ _ => simp only [Valid] at hv; rw [hv.1] at hn; exact absurd h1 hn
   | @cat x y a m' b h1 h2 ih1 ih2 =>
     have hm : m' = a + clen x := h1.len
@@ -865,31 +1115,34 @@ theorem sstar_lang (e : Env) (h : FwdByte e) {r : Re} {n : Nat} (hs : Seg e.code
 
 theorem reach_lang (e : Env) (h : FwdByte e) {r : Re} {n : Nat} (hs : Seg e.code r 0 n) (hmatch : u8 e.code n = OP_MATCH)
     (hentry : e.entry = 0) {f : Fiber} {m : Mode} {bm : Nat} (hr : Reach e f m bm) :
-    (Valid r 0 f.ip f.rc m ∨ AtEnd n f m) ∧
+    (Valid r 0 f.ip f.rc m ∨ AtEnd n f m) ∧ e.start + bm ≤ e.buf.size ∧
       ∀ q', lang (specFlags e.fl) e.buf r 0 Keps f.ip f.rc m (e.start + bm) q' →
         lang (specFlags e.fl) e.buf r 0 Keps 0 (-1) .run e.start q' := by
   induction hr with
   | start =>
     simp only [hentry]
-    exact ⟨.inl (valid_first hs), fun q' hq => by simpa using hq⟩
+    exact ⟨.inl (valid_first hs), h.startIn, fun q' hq => by simpa using hq⟩
   | scanStart bm hsc => rw [h.notScan] at hsc; simp at hsc
   | @sync f g m m' bm _ hmw hss ih =>
-    obtain ⟨hpos, hl⟩ := ih
+    obtain ⟨hpos, hb, hl⟩ := ih
     obtain ⟨r1, r2⟩ := sstar_lang e h hs hmatch hss m hmw hpos
-    exact ⟨r1, fun q' hq => hl q' (r2 _ q' hq)⟩
+    exact ⟨r1, hb, fun q' hq => hl q' (r2 _ q' hq)⟩
   | @zw f bm _ hnc hnm hz ih =>
-    obtain ⟨hpos, hl⟩ := ih
+    obtain ⟨hpos, hb, hl⟩ := ih
     rcases hpos with hst | hend
     · obtain ⟨_, _, _, _, e5⟩ := seg_step e h hs Keps f .run hst
-      obtain ⟨g1, g2⟩ := e5 bm hnc hz
-      exact ⟨g1, fun q' hq => hl q' (g2 q' hq)⟩
+      obtain ⟨g1, g2⟩ := e5 bm hb hnc hz
+      exact ⟨g1, hb, fun q' hq => hl q' (g2 q' hq)⟩
     · exact absurd (by rw [hend.1]; exact hmatch) hnm
   | @cons f m bm _ hc hok hany hnp ih =>
-    obtain ⟨hpos, hl⟩ := ih
+    obtain ⟨hpos, hb, hl⟩ := ih
+    have hb' : e.start + (bm + e.cs) ≤ e.buf.size := by
+      have := consume_in_buf h hok
+      rw [cs_one h]; omega
     rcases hpos with hst | hend
     · obtain ⟨_, _, e3, _, _⟩ := seg_step e h hs Keps f m hst
       obtain ⟨g1, g2⟩ := e3 bm hc hok hany hnp
-      refine ⟨g1, ?_⟩
+      refine ⟨g1, hb', ?_⟩
       intro q' hq
       apply hl q'
       apply g2 q'
@@ -904,7 +1157,7 @@ theorem reach_lang (e : Env) (h : FwdByte e) {r : Re} {n : Nat} (hs : Seg e.code
 theorem match_sound (e : Env) (h : FwdByte e) {r : Re} {n : Nat} (hs : Seg e.code r 0 n) (hmatch : u8 e.code n = OP_MATCH)
     (hentry : e.entry = 0) {f : Fiber} {m : Mode} {L : Nat} (hr : Reach e f m L) (hm : u8 e.code f.ip = OP_MATCH) :
     Re.Matches (specFlags e.fl) e.buf r e.start (e.start + L) := by
-  obtain ⟨hpos, hl⟩ := reach_lang e h hs hmatch hentry hr
+  obtain ⟨hpos, _, hl⟩ := reach_lang e h hs hmatch hentry hr
   rcases hpos with hst | hend
   · exact absurd hm (start_not_match e h hs hst)
   · have hk : lang (specFlags e.fl) e.buf r 0 Keps f.ip f.rc m (e.start + L) (e.start + L) := by
@@ -935,7 +1188,7 @@ theorem sub_whole (bs : List UInt8) : Sub bs.toArray 0 bs := by
 
 theorem emit_len {r : Re} (hf : HexFrag r) : ∀ s, (emit false r s).1.length = clen r := by
   induction hf with
-  | lit _ | masked _ _ | notLit _ | maskedNot _ _ | any => intro s; simp [emit, clen]
+  | lit _ | masked _ _ | notLit _ | maskedNot _ _ | any | wordCh | nonWordCh | space | nonSpace | digit | nonDigit | bol | eol | wordB | nonWordB => intro s; simp [emit, clen]
   | jump _ _ _ _ _ => intro s; simp [emit, clen, le16]
   | cat _ _ ih1 ih2 =>
     intro s
@@ -1003,6 +1256,66 @@ theorem seg_of_emit {r : Re} (hf : HexFrag r) : ∀ (s : Nat) (code : Code) (a :
     have h0 := h 0 (by simp)
     simp at h0
     exact .any (by rw [h0]; rfl)
+  | wordCh =>
+    intro s code a _ h
+    simp only [emit] at h
+    have h0 := h 0 (by simp)
+    simp at h0
+    exact .wordCh (by rw [h0]; rfl)
+  | nonWordCh =>
+    intro s code a _ h
+    simp only [emit] at h
+    have h0 := h 0 (by simp)
+    simp at h0
+    exact .nonWordCh (by rw [h0]; rfl)
+  | space =>
+    intro s code a _ h
+    simp only [emit] at h
+    have h0 := h 0 (by simp)
+    simp at h0
+    exact .space (by rw [h0]; rfl)
+  | nonSpace =>
+    intro s code a _ h
+    simp only [emit] at h
+    have h0 := h 0 (by simp)
+    simp at h0
+    exact .nonSpace (by rw [h0]; rfl)
+  | digit =>
+    intro s code a _ h
+    simp only [emit] at h
+    have h0 := h 0 (by simp)
+    simp at h0
+    exact .digit (by rw [h0]; rfl)
+  | nonDigit =>
+    intro s code a _ h
+    simp only [emit] at h
+    have h0 := h 0 (by simp)
+    simp at h0
+    exact .nonDigit (by rw [h0]; rfl)
+  | bol =>
+    intro s code a _ h
+    simp only [emit] at h
+    have h0 := h 0 (by simp)
+    simp at h0
+    exact .bol (by rw [h0]; rfl)
+  | eol =>
+    intro s code a _ h
+    simp only [emit] at h
+    have h0 := h 0 (by simp)
+    simp at h0
+    exact .eol (by rw [h0]; rfl)
+  | wordB =>
+    intro s code a _ h
+    simp only [emit] at h
+    have h0 := h 0 (by simp)
+    simp at h0
+    exact .wordB (by rw [h0]; rfl)
+  | nonWordB =>
+    intro s code a _ h
+    simp only [emit] at h
+    have h0 := h 0 (by simp)
+    simp at h0
+    exact .nonWordB (by rw [h0]; rfl)
   | jump lo hi g hlh hhi =>
     intro s code a _ h
     simp only [emit, le16] at h
